@@ -15,6 +15,8 @@ def closure_calls(prog, d, rx):
             for p in prog.reach_bodies([y[1]]):
                 if prog.bodies[p].calls_to(rx):
                     return True
+        if y[0] == "fn" and isinstance(y[1], str) and core.re.search(rx, y[1]):
+            return True         # the function itself handed over as the predicate: `.filter(Session::valid)`
         if y[0] == "fn" and y[1] in prog.bodies and prog.bodies[y[1]].local_ty(0) == "bool":
             fb = prog.bodies[y[1]]
             r = describe(prog, fb, 0)
@@ -54,7 +56,9 @@ def validity_established(prog, b, blk, user_desc):
             continue
         if c[0] == "edge":
             continue
-        direct = desc_contains(c, lambda y: y[0] == "call" and core.re.search(VALID, y[1]) is not None)
+        direct = desc_contains(c, lambda y: y[0] == "call" and core.re.search(VALID, y[1]) is not None) or \
+            desc_contains(c, lambda y: y[0] == "call" and core.re.search(r"Option::<T>::(is_some_and|map_or|filter)$", y[1]) is not None and
+                          any(isinstance(a, tuple) and a and a[0] == "fn" and core.re.search(VALID, str(a[1])) for a in y[2]))
         via = closure_calls(prog, c, VALID)
         if (direct or via) and pol:
             return "dominating valid() test"
@@ -92,7 +96,7 @@ def run(chk):
                     if desc_contains(d, lambda y: y[0] == "call" and y[1].endswith("get_user_by_token")):
                         sites.append((ob, "return Ok(uid)", d))
         d0 = describe(prog, b, 0)
-        if "String" in b.local_ty(0) and desc_contains(d0, lambda y: y[0] == "call" and y[1].endswith("Option::<T>::ok_or")) and desc_contains(d0, lambda y: y[0] == "call" and y[1].endswith("get_user_by_token")):
+        if "String" in b.local_ty(0) and isinstance(d0, tuple) and d0[0] == "call" and d0[1].endswith("Option::<T>::ok_or") and desc_contains(d0, lambda y: y[0] == "call" and y[1].endswith("get_user_by_token")):
             sites.append((core.return_blocks(b)[0], "return uid (Option chain)", d0))
         for blk, what, d in sites:
             n += 1
@@ -152,7 +156,9 @@ def run(chk):
         if not b:
             continue
         ups = b.calls_to(r"AuthDatabase::update_user$")
-        chk.floor(f"update_user in {fn.split('::')[-1]}", len(ups), 1)
+        # (create_session may hand the work to create_session_with_lifetime, which is judged in its own right)
+        delegated = fn.endswith("::create_session") and bool(b.calls_to(r"AuthProvider::<T>::create_session_with_lifetime$"))
+        chk.floor(f"update_user in {fn.split('::')[-1]}", len(ups) + (1 if delegated else 0), 1)
         for blk, t in ups:
             ok = False
             for cond, truth in panics.bool_facts(prog, b, blk):
@@ -186,6 +192,12 @@ def run(chk):
             for s_ in blk_["stmts"]:
                 if "pl" in s_ and [e[1] for e in s_["pl"]["p"] if e[0] == "f"] == [si]:
                     d = core.describe_rv(prog, b, s_["rv"])
+                    if d[0] == "variant" and d[2] == "None":
+                        cleared = True
+                # struct-update form: update_user(User { session: None, ..user })
+                rv_ = s_.get("rv")
+                if rv_ and rv_.get("k") == "agg" and str(rv_.get("adt", "")).endswith("user::User") and "session" in (rv_.get("fields") or []):
+                    d = describe(prog, b, rv_["ops"][rv_["fields"].index("session")])
                     if d[0] == "variant" and d[2] == "None":
                         cleared = True
         w = core.must_pass(b, [blk for blk, t in b.calls_to(r"get_user_by_(token|uid)$")], core.return_blocks(b), through_nodes=[blk for blk, t in b.calls_to(r"update_user$")],
@@ -637,7 +649,8 @@ def lifetime_fields(chk, prog):
         ok = bool(written) and all(f == idx[field] for f, d in written if desc_contains(d, lambda y: y[0] == "param" and y[2] == "lifetime")) and \
             any(f == idx[field] and desc_contains(d, lambda y: y[0] == "param" and y[2] == "lifetime") for f, d in written)
         chk.ob("R7.lifetime_field", b.path, f"{setter} stores its argument in AuthConfig.{field}", ok, f"fields written: {[(f, panics.short_desc(d)) for f, d in written]}")
-    for meth, rx, ai, field in (("create_session", r"Session::create_with_lifetime$", 0, "default_lifetime"), ("refresh_session", r"session::Session::refresh$", 1, "default_refresh_lifetime")):
+    for meth, rx, ai, field in (("create_session", r"Session::create_with_lifetime$", 0, "default_lifetime"), ("refresh_session", r"session::Session::refresh$", 1, "default_refresh_lifetime"),
+                                ("create_session", r"AuthProvider::<T>::create_session_with_lifetime$", 2, "default_lifetime")):
         b = prog.bodies.get(AP + meth)
         if not b or field not in idx or ci is None:
             continue
